@@ -5,26 +5,69 @@ package cache
 // driver owns, and exposes what the barrier needs.
 
 import (
+	"sync"
 	"time"
 
 	"github.com/gotid/god/lib/collection"
 	"github.com/gotid/god/lib/timex"
 )
 
-// VerifSentinel is a wheel value that is not a delayTask: when it fires, C is closed instead
-// of calling clean.  The driver schedules one right before every tick; the wheel executes the
-// tasks of a tick one after the other in insertion order, so when the sentinel fires every
-// delayTask of that tick has been handed to clean (and thereby to the task runner).
-type VerifSentinel struct{ C chan struct{} }
+// The tick barrier of the driver does not rely on any timer of its own being fired by the wheel
+// (how the wheel scans a slot is code under test).  The wheel's execute function is `clean`
+// behind a gate that also counts:
+//   - while the gate is held, a task that the wheel has collected on a tick waits in front of
+//     clean; nothing can therefore register a new timer, and the number of timers the tick has
+//     taken out of the wheel's registry (read before the tick and after the wheel's loop has
+//     accepted a later message) is exactly the number of tasks the tick collected;
+//   - after the release, VerifHanded tells how many tasks clean has taken over (clean returns
+//     once the task occupies a slot of the task runner, so VerifCleanInFlight counts it).
+var verifGate struct {
+	mu     sync.Mutex
+	held   chan struct{}
+	handed int
+}
+
+// VerifHold makes tasks fired by the wheel wait in front of clean until VerifRelease.
+func VerifHold() {
+	verifGate.mu.Lock()
+	if verifGate.held == nil {
+		verifGate.held = make(chan struct{})
+	}
+	verifGate.mu.Unlock()
+}
+
+// VerifRelease lets the waiting tasks (and all later ones) through.
+func VerifRelease() {
+	verifGate.mu.Lock()
+	if verifGate.held != nil {
+		close(verifGate.held)
+		verifGate.held = nil
+	}
+	verifGate.mu.Unlock()
+}
+
+// VerifHanded is the number of fired tasks that clean has taken over so far.
+func VerifHanded() int {
+	verifGate.mu.Lock()
+	defer verifGate.mu.Unlock()
+	return verifGate.handed
+}
 
 // VerifSwapWheel stops the current cleaner wheel and installs a fresh one (same interval and
-// slot count as production, same execute function `clean`) driven by ticker.
+// slot count as production, execute function `clean` behind the gate) driven by ticker.
 func VerifSwapWheel(ticker timex.Ticker) (*collection.TimingWheel, error) {
 	w, err := collection.NewVerifTimingWheel(time.Second, timingWheelSlots, func(k, v any) {
-		if s, ok := v.(VerifSentinel); ok {
-			close(s.C)
-			return
+		verifGate.mu.Lock()
+		held := verifGate.held
+		verifGate.mu.Unlock()
+		if held != nil {
+			<-held
 		}
+		defer func() {
+			verifGate.mu.Lock()
+			verifGate.handed++
+			verifGate.mu.Unlock()
+		}()
 		clean(k, v)
 	}, ticker)
 	if err != nil {
